@@ -237,6 +237,75 @@ func c15Finalize(r *core.Run, p *core.Prog) {
 				}
 			}
 		}
+		// the final result of a streaming query equals that of the plain query: the row limit handed to the final (deferred)
+		// finalizeResult must not depend on whether a stream sender exists, nor on the cap for partial results
+		var sendParam types.Object
+		fsig := f.Obj.Type().(*types.Signature)
+		for i := 0; i < fsig.Params().Len(); i++ {
+			if strings.Contains(core.TypeName(fsig.Params().At(i).Type()), "sse.Sender") || fsig.Params().At(i).Name() == "send" {
+				sendParam = fsig.Params().At(i)
+			}
+		}
+		tainted := func(e ast.Node) string {
+			why := ""
+			core.Walk(e, true, func(x ast.Node) bool {
+				if id, ok := x.(*ast.Ident); ok {
+					if sendParam != nil && info.Uses[id] == sendParam {
+						why = "depends on the stream sender"
+					}
+					if id.Name == "maxLimitStreaming" {
+						why = "is capped by the limit for partial streaming results"
+					}
+				}
+				return true
+			})
+			return why
+		}
+		badLimit := ""
+		parents := core.Parents(f.Decl.Body)
+		for _, st := range f.Decl.Body.List {
+			d, ok := st.(*ast.DeferStmt)
+			if !ok {
+				continue
+			}
+			for _, c := range core.Calls(d, true) {
+				if core.CallName(info, c) != pkgDist+".finalizeResult" || len(c.Args) == 0 {
+					continue
+				}
+				lim := c.Args[len(c.Args)-1]
+				if w := tainted(lim); w != "" {
+					badLimit = "the limit of the final result " + w
+				}
+				if o, isVar := core.ObjOf(info, lim).(*types.Var); isVar && !o.IsField() {
+					// every assignment to the limit variable, and the conditions it sits under
+					core.Walk(f.Decl.Body, true, func(x ast.Node) bool {
+						a, ok := x.(*ast.AssignStmt)
+						if !ok {
+							return true
+						}
+						for i, l := range a.Lhs {
+							if core.ObjOf(info, l) != types.Object(o) {
+								continue
+							}
+							if i < len(a.Rhs) {
+								if w := tainted(a.Rhs[i]); w != "" {
+									badLimit = fmt.Sprintf("%s: the limit of the final result %s", p.Rel(a.Pos()), w)
+								}
+							}
+							for pn := parents[ast.Node(a)]; pn != nil; pn = parents[pn] {
+								if ifs, ok := pn.(*ast.IfStmt); ok {
+									if w := tainted(ifs.Cond); w != "" {
+										badLimit = fmt.Sprintf("%s: the limit of the final result is changed under a condition that %s", p.Rel(a.Pos()), w)
+									}
+								}
+							}
+						}
+						return true
+					})
+				}
+			}
+		}
+		r.Check(rule, "aggregateResults:final-limit-independent-of-streaming", p.Rel(f.Decl.Pos()), badLimit == "" && okDefer, orStr(badLimit, "the final result of a streaming query must equal the result of the same query without streaming: only partial results may be capped"))
 		r.Check(rule, "aggregateResults:final-finalize-deferred", p.Rel(f.Decl.Pos()), okDefer, "the final finalizeResult must be deferred at the top level of aggregateResults so that it runs on every exit (channel closed, context cancelled)")
 	}
 	f := r.MustFunc(rule, pkgDist, "finalizeResult")
